@@ -1331,6 +1331,8 @@ AG_OPTS = {
     "local-early": dict(method="local-early"),
     "local-early-nocanon": dict(method="local-early", canonize=False),
     "local-early-basic": dict(method="local-early", mode="basic", tree_gauge_distance=1),
+    "local-early-left": dict(method="local-early", canonize=False, absorb="left"),
+    "local-late-right": dict(method="local-late", canonize=False, absorb="right"),
     "local-late": dict(method="local-late"),
     "local-late-nocanon": dict(method="local-late", canonize=False),
     "projector": dict(method="projector"),
